@@ -18,6 +18,9 @@ ProfIn == << [p1a |-> FALSE, p1b |-> FALSE, p2a |-> FALSE, p2b |-> FALSE, p3a |-
 ProfStreams == << [p1a |-> 0, p1b |-> 0, p2a |-> 0, p2b |-> 0, p3a |-> 0, p3b |-> 0, p4a |-> 0],
                   [p1a |-> 2, p1b |-> 0, p2a |-> 1, p2b |-> 1, p3a |-> 0, p3b |-> 3, p4a |-> 2],
                   [p1a |-> 1, p1b |-> 2, p2a |-> 0, p2b |-> 0, p3a |-> 0, p3b |-> 1, p4a |-> 0] >>
+\* value classes of the "extreme" scale map (harness: -2 -> math.MinInt, -1 -> -100, 0, 1 -> 100, 2 -> math.MaxInt):
+\* order-preserving, so the model's ordering clauses carry over, while real differences leave the int range
+MCValsExt == {0 - 2, 0 - 1, 0, 1, 2}
 MCConnIn == [c \in Conns |-> ProfIn[Profile][c]]
 MCConnStreams == [c \in Conns |-> ProfStreams[Profile][c]]
 MCProtTagsOf == [p \in Peers |-> IF p \in Prot2 THEN {"x", "y"} ELSE IF p \in Prot1 THEN {"x"} ELSE {}]
